@@ -228,3 +228,24 @@ Proof.
   intros H Hi Ha Hs Hp Hm. apply dlg_new_wf in H as (_ & _ & Hn & Hc & Hnbf & Hexp & Hpi & ->).
   constructor; cbn; auto.
 Qed.
+
+Lemma norm_aud_ok sub aud : match aud with Some d => did_ok d | None => True end ->
+  match norm_aud sub aud with Some d => did_ok d | None => True end.
+Proof. unfold norm_aud. destruct aud as [a|]; [|auto]. destruct (did_eqb a sub); auto. Qed.
+
+Theorem inv_new_constructed iss sub aud cmd args prf ng r12 meta exp iat cause t :
+  inv_new iss sub aud cmd args prf ng r12 meta exp iat cause = Ok t ->
+  did_ok iss -> did_ok sub -> match aud with Some d => did_ok d | None => True end ->
+  forallb (fun kv => ints_in53 (snd kv)) args = true -> keys_nodup args = true ->
+  no_null_values meta = true -> no_null_values args = true -> inv_constructed t.
+Proof.
+  intros H Hi Hs Ha Hai Hak Hm Han. pose proof H as H0. apply inv_new_wf in H0 as (_ & _ & Hn & Hc & Hexp & Hiat & Haud).
+  unfold inv_new, inv_validate in H.
+  cbn [ik_iss ik_sub ik_aud ik_cmd ik_args ik_prf ik_meta ik_nonce ik_exp ik_iat ik_cause] in H.
+  destruct (negb (defined iss)); [discriminate|]. destruct (negb (defined sub)); [discriminate|].
+  destruct (length (default_nonce ng r12) <? 12)%nat; [discriminate|].
+  destruct (negb (is_ok (Command.parse cmd))); [discriminate|].
+  destruct (negb (opt_in53b exp && opt_in53b iat)); [discriminate|]. injection H as <-.
+  constructor; cbn [ik_iss ik_sub ik_aud ik_cmd ik_args ik_prf ik_meta ik_nonce ik_exp ik_iat ik_cause] in *; auto.
+  apply norm_aud_ok. exact Ha.
+Qed.
